@@ -31,6 +31,7 @@ def dispatch (line : String) : String :=
       | "cycles" => handleCycles args obs
       | "cnt" => handleCnt args obs
       | "macflush" => handleMacFlush args
+      | "winalloc" => handleWinAlloc args
       | "cntwin" => handleCnt args obs
       | "cntunw" => handleCnt args obs
       | "cntexit" => handleCnt args obs
